@@ -220,7 +220,7 @@ fn grouped(mode: &ModeSpec, lname: &str, data: &[u8], len: usize, group_chunks: 
 fn cell(mode: &ModeSpec, lname: &str, level: P, thorough: bool, rep: &mut Report) {
     subject::force(Some(level));
     let mut seen = HashSet::new();
-    let max_chunks = if thorough { 40 } else { 20 };
+    let max_chunks = if thorough { 72 } else { 40 };
     let big = 130 * 1024;
     let data = vcommon::stream_a(big);
     let mut oracle = b3spec::StreamOracle::new(mode.spec(), data.clone());
@@ -235,7 +235,7 @@ fn cell(mode: &ModeSpec, lname: &str, level: P, thorough: bool, rep: &mut Report
         }
     }
     // 2. every decomposition
-    let dmax = if thorough { 16 } else { 12 };
+    let dmax = if thorough { 20 } else { 16 };
     for m in 2..=dmax {
         for r in [0usize, 1, 1023] {
             let len = m * 1024 + r - if r == 0 { 0 } else { 1024 };
@@ -317,7 +317,7 @@ fn cell(mode: &ModeSpec, lname: &str, level: P, thorough: bool, rep: &mut Report
 
 /// 4. the two helpers against their arithmetic definitions.
 fn helpers(thorough: bool, rep: &mut Report) {
-    let lim: u64 = if thorough { 1 << 24 } else { 1 << 22 };
+    let lim: u64 = if thorough { 1 << 26 } else { 1 << 24 };
     let mut ns: Vec<u64> = vec![];
     let mut push_around = |v: &mut Vec<u64>, c: u128, lo: u64, hi: u128| {
         let from = c.saturating_sub(4096);
@@ -400,7 +400,7 @@ pub fn run(args: &Args, rep: &mut Report) {
     rep.merge(r);
     rep.configs.push(subject::config_json());
     rep.rule = format!("(1) every node of the tree of every input of 1..={} chunks (+ partial last chunk in 0,1,63,64,1023), hashed with set_input_offset + 6 update splits + finalize_non_root, vs the spec CV; (2) every recursive decomposition of inputs up to {} chunks, merged with merge_subtrees_non_root / _root / _root_xof; fixed 1..64-chunk groupings up to 128 chunks; (3) subtrees of 1..64 chunks at chunk counters around 2^32, 2^33, 2^53, 2^54-1; (4) left_subtree_len on every n in (1024, 2^{}] and +-4096 around every power of two up to 2^64-1, max_subtree_len on every chunk index up to 2^{} and around powers of two up to 2^54-1; x 4 modes x every SIMD level; non-trivial = distinct (level, mode, node/offset, split plan) or helper argument",
-        if t { 40 } else { 20 }, if t { 16 } else { 12 }, if t { 24 } else { 22 }, if t { 24 } else { 22 });
+        if t { 72 } else { 40 }, if t { 20 } else { 16 }, if t { 26 } else { 24 }, if t { 26 } else { 24 });
     rep.sample(json!({"kind": "node", "mode": {"kind": "keyed"}, "input_len": 5 * 1024 + 63, "lo": 4096, "hi": 5183, "plan": [1, 63, 64, 65, 894]}));
     rep.sample(json!({"kind": "high-offset", "chunk_counter": ((1u64 << 32) - 64).to_string(), "len": 65536, "plan": [65536]}));
     rep.sample(json!({"kind": "left_subtree_len", "n": u64::MAX.to_string()}));
